@@ -161,24 +161,32 @@ def child_run(root: str, cfg: dict, dry_run: bool) -> dict:
     """Runs in a forked child (fresh import state for the generated package). Returns events / prints / error."""
     events = []
 
+    def guard(p):
+        """safety net: a write that would land outside the temp root is recorded and refused"""
+        ap = os.path.abspath(p)
+        if not (ap == root or ap.startswith(root + os.sep)):
+            events.append(["blocked", ap])
+            raise PermissionError("C20 harness: write outside the temp root refused: %s" % ap)
+
     def hook(ev, args):
-        try:
-            if ev == "open":
-                p, mode, flags = args
-                if isinstance(p, bytes):
-                    p = p.decode()
-                if not isinstance(p, str):
-                    return
-                wr = (isinstance(mode, str) and any(c in mode for c in "wax+")) or (mode is None and isinstance(flags, int) and flags & WRITE_FLAGS)
-                if wr:
-                    m = mode if isinstance(mode, str) else "flags:%d" % flags
-                    events.append(["open-a" if "a" in m else "open-w", p])
-            elif ev in FS_EVENTS:
-                events.append([ev.replace("os.", "")] + [a.decode() if isinstance(a, bytes) else str(a) for a in args[:2]][:1 if ev in ("os.mkdir", "os.remove", "os.rmdir") else 2])
-        except Exception:  # noqa
-            events.append(["hook-error", repr(args)[:200]])
+        if ev == "open":
+            p, mode, flags = args
+            if isinstance(p, bytes):
+                p = p.decode()
+            if not isinstance(p, str):
+                return
+            wr = (isinstance(mode, str) and any(c in mode for c in "wax+")) or (mode is None and isinstance(flags, int) and flags & WRITE_FLAGS)
+            if wr:
+                m = mode if isinstance(mode, str) else "flags:%d" % flags
+                guard(p)
+                events.append(["open-a" if "a" in m else "open-w", p])
+        elif ev in FS_EVENTS:
+            ps = [a.decode() if isinstance(a, bytes) else str(a) for a in args[:2]]
+            guard(ps[0])
+            events.append([ev.replace("os.", "")] + ps[:1 if ev in ("os.mkdir", "os.remove", "os.rmdir") else 2])
 
     sys.dont_write_bytecode = True
+    os.chdir(root)
     sys.path.insert(0, os.path.join(root, "src"))
     import cdd.compound.exmod_utils as eu
     from cdd.__main__ import main
